@@ -5,6 +5,7 @@ import (
 	"fmt"
 	"math/rand/v2"
 	"os"
+	"regexp"
 	"strconv"
 	"strings"
 	"time"
@@ -148,6 +149,73 @@ func rangeTooBig(w string) bool {
 	return false
 }
 
+var charRangeRe = regexp.MustCompile(`\{([A-Za-z])\.\.([A-Za-z])`)
+
+// rangeCrossesBackslash: a letter range between an upper-case and a lower-case
+// letter contains '\\' (0x5C). What bash prints for that element is decided by
+// quote removal, a later expansion stage, so such words are outside C16.
+func rangeCrossesBackslash(w string) bool {
+	for _, m := range charRangeRe.FindAllStringSubmatch(w, -1) {
+		a, b := m[1][0], m[2][0]
+		if a > b {
+			a, b = b, a
+		}
+		if a <= '\\' && '\\' <= b {
+			return true
+		}
+	}
+	return false
+}
+
+var validSeqRe = regexp.MustCompile(`^(-?[0-9]+\.\.-?[0-9]+|[A-Za-z]\.\.[A-Za-z])(\.\.-?[0-9]+)?$`)
+
+// literalCloseBrace is the carve-out of known finding C16-literal-close-brace.
+// It pairs braces the way SplitBraces does (backslash escapes skipped) and
+// reports a group without a top-level comma that is not a valid sequence and
+// (a) has another '}' somewhere to its right (bash treats the group's own '}' as
+// text and keeps scanning), or (b) holds a nested group next to a top-level
+// ".." (bash then drops the outer braces).
+func literalCloseBrace(w string) bool {
+	type grp struct {
+		start           int
+		comma, dots, in bool
+	}
+	var st []grp
+	for i := 0; i < len(w); i++ {
+		switch w[i] {
+		case '\\':
+			i++
+		case '{':
+			if n := len(st); n > 0 {
+				st[n-1].in = true
+			}
+			st = append(st, grp{start: i})
+		case ',':
+			if n := len(st); n > 0 {
+				st[n-1].comma = true
+			}
+		case '.':
+			if n := len(st); n > 0 && i+1 < len(w) && w[i+1] == '.' {
+				st[n-1].dots = true
+			}
+		case '}':
+			n := len(st)
+			if n == 0 {
+				continue
+			}
+			g := st[n-1]
+			st = st[:n-1]
+			if g.comma || validSeqRe.MatchString(w[g.start+1:i]) {
+				continue
+			}
+			if strings.Contains(w[i+1:], "}") || (g.in && g.dots) {
+				return true
+			}
+		}
+	}
+	return false
+}
+
 func dropEmpty(xs []string) []string {
 	out := xs[:0:0]
 	for _, x := range xs {
@@ -183,6 +251,16 @@ func (p *c16) Run(payload any) mon.Result {
 	for _, w := range words {
 		if endsInLoneBackslash([]byte(w)) || rangeTooBig(w) {
 			res.Count("skipped_words", 1)
+			continue
+		}
+		if c.Kind == "random" && p.env.Findings.Carved("C16-literal-close-brace") && literalCloseBrace(w) {
+			res.Count("carved_literal_close_brace", 1)
+			continue
+		}
+		if rangeCrossesBackslash(w) {
+			// bash emits the backslash of {a..Z} as an unquoted character which
+			// the later quote removal (not brace expansion) then eats
+			res.Count("skipped_backslash_ranges", 1)
 			continue
 		}
 		f, err := syntax.NewParser(syntax.Variant(syntax.LangBash)).Parse(strings.NewReader("x "+w), "")
@@ -243,7 +321,7 @@ func (p *c16) Run(payload any) mon.Result {
 		for _, it := range items {
 			snippets = append(snippets, "set -- "+it.w+"\nprintf '%d\\0' $#\nif [ $# -le 20000 ]; then printf '%s\\0' \"$@\"; fi")
 		}
-		script := oracle.FramedScript("set -f", snippets)
+		script := oracle.FramedScriptFlat("set -f", snippets) // literal words cannot exit or fail to parse
 		r := oracle.RunShell("bash", nil, script, dir, oracle.SealedEnv(p.env.Build, dir), nil, 240*time.Second)
 		if r.Err != nil || r.TimedOut {
 			return mon.Result{Verdict: mon.Inconclusive, Reason: "shell-run-failed", Detail: fmt.Sprintf("bash: err=%v timeout=%v", r.Err, r.TimedOut)}
